@@ -6,7 +6,9 @@ import (
 	"regexp"
 )
 
-var reIdentifiers = regexp.MustCompile("^[a-zA-Z0-9_]+$")
+// What the lexer takes for an identifier: letters, digits and underscores, not digits only
+// (that is a number) and none of the keywords.
+var reIdentifiers = regexp.MustCompile("^[0-9]*[a-zA-Z_][a-zA-Z0-9_]*$")
 
 var autoescape = true
 
@@ -28,9 +30,18 @@ func SetAutoescape(newValue bool) {
 //	{{ pongo2.version }}
 type Context map[string]any
 
+func isKeyword(name string) bool {
+	for _, kw := range TokenKeywords {
+		if kw == name {
+			return true
+		}
+	}
+	return false
+}
+
 func (c Context) checkForValidIdentifiers() *Error {
 	for k, v := range c {
-		if !reIdentifiers.MatchString(k) {
+		if !reIdentifiers.MatchString(k) || isKeyword(k) {
 			return &Error{
 				Sender:    "checkForValidIdentifiers",
 				OrigError: fmt.Errorf("context-key '%s' (value: '%+v') is not a valid identifier", k, v),
